@@ -419,6 +419,62 @@ def stale_dispatch_round():
     return obs
 
 
+def callback_waits_for_reply_round():
+    """The application's handler asks the peer something (send_and_waitfor_response, T3 = 30 s) and the peer closes instead of
+    answering.  Nobody answers on a connection that ended: the handler goes on without a reply, and the next connection is served
+    at once - not after T3."""
+    rig = protorig.HsmsRig(active=False, session_id=0)
+    rig.settings.timeouts.t3 = 30
+    obs = {}
+    try:
+        rig.proto.enable()
+        rig.conn.connect()
+        rig.settle()
+        rig.conn.feed(frame_of(1, 0x41))
+        rig.settle()
+        box = {}
+
+        def asking(data):
+            if "asked" in box:
+                return
+            box["asked"] = time.monotonic()
+            msg = HsmsMessage(HsmsHeader(rig.proto.get_next_system_counter(), 0, 1, 1, True, 0, HsmsSType.DATA_MESSAGE), b"")
+            q = rig.proto._get_queue_for_system(msg.header.system)
+            rig.proto.send_message(msg)
+            try:
+                box["reply"] = q.get(True, rig.settings.timeouts.t3)
+            except Exception as exc:  # noqa: BLE001
+                box["reply"] = repr(exc)
+            rig.proto._remove_queue(msg.header.system)
+            box["returned"] = time.monotonic()
+
+        rig.proto.events.message_received += asking
+        rig.conn.feed(frame_of(0, 0x10, 1, 1, False))
+        deadline = time.monotonic() + 5
+        while "asked" not in box and time.monotonic() < deadline:
+            time.sleep(0.005)
+        time.sleep(0.1)
+        common.with_deadline(rig.conn.peer_close, 20.0)
+        obs["not_connected_after_close"] = rig.proto.connection_state.current.value == 0
+        n0 = len(rig.conn.sent)
+        t0 = time.monotonic()
+        rig.conn.connect()
+        rig.conn.feed(frame_of(1, 0x42))
+        deadline = time.monotonic() + 10
+        answered = None
+        while time.monotonic() < deadline and answered is None:
+            data = b"".join(rig.conn.sent[n0:])
+            if len(data) >= 14 and data[9] == 2:
+                answered = time.monotonic() - t0
+            time.sleep(0.01)
+        obs["select_rsp_after_seconds"] = None if answered is None else round(answered, 2)
+        obs["handler_went_on_after_seconds"] = round(box["returned"] - box["asked"], 2) if "returned" in box else None
+        obs["handler_got"] = repr(box.get("reply"))
+    finally:
+        rig.stop()
+    return obs
+
+
 def disable_while_connect_succeeds_round():
     """The same moment on an ACTIVE endpoint: nobody listens, the connect thread retries; disable() sees the thread alive, the peer
     starts listening, the next attempt succeeds and the thread ends, then disable() asks it to stop.  disable() must return."""
@@ -852,6 +908,10 @@ def run(tier, replay=None):
     race2_obs = common.guarded(disable_while_connect_succeeds_round, "disable() while the active endpoint's connection attempt succeeds", awedged, 60.0)
     if race2_obs is not None and not (race2_obs["disable_returned"] and race2_obs["not_connected"]):
         report.violation({"kind": "counterexample", "what": "disable() did not return / the endpoint did not end NOT CONNECTED when its connection attempt succeeded while it was being disabled", **race2_obs}, True, tag="disablerace")
+    cw_obs = common.guarded(callback_waits_for_reply_round, "a handler waits for a reply when the peer closes", awedged, 90.0)
+    if cw_obs is not None and not (cw_obs.get("not_connected_after_close") and cw_obs.get("select_rsp_after_seconds") is not None and cw_obs["select_rsp_after_seconds"] < 5
+                                   and cw_obs.get("handler_got") == "None"):
+        report.violation({"kind": "counterexample", "what": "a handler was waiting for a reply when the peer closed: the next connection was not selected promptly / the handler did not go on without a reply", **cw_obs}, True, tag="callbackwaits")
     scan_obs = common.guarded(lambda: connect_and_close_round(30 if tier == "quick" else 150), "a peer that connects and goes away at once, again and again", awedged, 120.0)
     if scan_obs is not None and not (scan_obs.get("probe_selected") and scan_obs.get("disable_returned") and scan_obs.get("refused_for_good_at_round") is None):
         report.violation({"kind": "counterexample", "what": "after peers that connected and went away at once the passive endpoint no longer accepts a connection / selects / disable() hangs", **scan_obs}, True, tag="connectclose")
@@ -946,6 +1006,7 @@ def run(tier, replay=None):
     cov["disable_while_connect_succeeds"] = race2_obs
     cov["active_disable_stays_down"] = down_obs
     cov["connect_and_close"] = scan_obs
+    cov["handler_waits_for_reply_at_link_loss"] = cw_obs
     cov["disable_races_peer_close"] = race3_obs
     cov["stale_dispatch_queue"] = sd_obs
     cov["disable_from_callback"] = cb_obs
